@@ -239,6 +239,68 @@ def _terminates(body) -> bool:
     return bool(body) and isinstance(body[-1], (ast.Return, ast.Continue, ast.Break, ast.Raise))
 
 
+def _desugar_dict_builds(tree: ast.Module) -> ast.Module:
+    """a dict built by a comprehension / dict(zip(..)) / dict.fromkeys(<generator>) and assigned to a name or a subscript is read as the loop that
+    fills it, which is how the reviewed code spells it:
+        T = {K: V for X in IT if C}      ->   T = {}   for X in IT:  if C:  T[K] = V
+        T = dict(zip(A, B))              ->   T = {}   for k, v in zip(A, B):  T[k] = v
+        T = dict.fromkeys(E for ...)     ->   T = {}   for ...:  T[E] = None"""
+    def simple(t):
+        return isinstance(t, ast.Name) or (isinstance(t, (ast.Subscript, ast.Attribute)) and not any(isinstance(x, (ast.Call, ast.NamedExpr)) for x in ast.walk(t)))
+
+    def parts(v):
+        if isinstance(v, ast.DictComp):
+            return v.key, v.value, v.generators
+        if isinstance(v, ast.Call) and isinstance(v.func, ast.Name) and v.func.id == "dict" and len(v.args) == 1 and not v.keywords:
+            a = v.args[0]
+            if isinstance(a, ast.Call) and isinstance(a.func, ast.Name) and a.func.id == "zip" and len(a.args) == 2 and not a.keywords:
+                k, w = ast.Name(id="k__z", ctx=ast.Load()), ast.Name(id="v__z", ctx=ast.Load())
+                tgt = ast.Tuple(elts=[ast.Name(id="k__z", ctx=ast.Store()), ast.Name(id="v__z", ctx=ast.Store())], ctx=ast.Store())
+                return k, w, [ast.comprehension(target=tgt, iter=a, ifs=[], is_async=0)]
+        if isinstance(v, ast.Call) and isinstance(v.func, ast.Attribute) and v.func.attr == "fromkeys" and isinstance(v.func.value, ast.Name) and v.func.value.id == "dict" \
+                and len(v.args) == 1 and not v.keywords and isinstance(v.args[0], (ast.GeneratorExp, ast.ListComp)):
+            return v.args[0].elt, ast.Constant(value=None), v.args[0].generators
+        return None
+    for fn in [n for n in ast.walk(tree) if isinstance(n, (ast.FunctionDef, ast.AsyncFunctionDef))]:
+        for node in ast.walk(fn):
+            for fld in ("body", "orelse", "finalbody"):
+                b = getattr(node, fld, None)
+                if not (isinstance(b, list) and b and isinstance(b[0], ast.stmt)):
+                    continue
+                i = 0
+                while i < len(b):
+                    st = b[i]
+                    pr = parts(st.value) if isinstance(st, ast.Assign) and len(st.targets) == 1 and simple(st.targets[0]) else None
+                    if pr is None or any(g.is_async for g in pr[2]):
+                        i += 1
+                        continue
+                    key, val, gens = pr
+                    tgt_txt = ast.unparse(st.targets[0])
+                    bound = {x.id for g in gens for x in ast.walk(g.target) if isinstance(x, ast.Name)}
+                    inside = {id(x) for x in ast.walk(st)}
+                    used_elsewhere = {x.id for x in ast.walk(fn) if isinstance(x, ast.Name) and id(x) not in inside} | {a.arg for a in ast.walk(fn) if isinstance(a, ast.arg)}
+                    if any(isinstance(x, ast.Name) and x.id in bound for x in ast.walk(st.targets[0])) or (bound & used_elsewhere):
+                        i += 1          # the comprehension's own scope matters here: left as written
+                        continue
+                    load_t = ast.parse(tgt_txt, mode="eval").body
+                    store = ast.Assign(targets=[ast.Subscript(value=load_t, slice=key, ctx=ast.Store())], value=val)
+                    inner = [store]
+                    for g in reversed(gens):
+                        for c in reversed(g.ifs):
+                            inner = [ast.If(test=c, body=inner, orelse=[])]
+                        inner = [ast.For(target=g.target, iter=g.iter, body=inner, orelse=[])]
+                    init = ast.Assign(targets=[st.targets[0]], value=ast.Dict(keys=[], values=[]))
+                    for x in [init] + inner:
+                        ast.copy_location(x, st)
+                        for y in ast.walk(x):
+                            if not hasattr(y, "lineno"):
+                                ast.copy_location(y, st)
+                        ast.fix_missing_locations(x)
+                    b[i:i + 1] = [init] + inner
+                    i += 2
+    return tree
+
+
 def _canon_all(tree: ast.Module) -> ast.Module:
     from .canon import canon
     return canon(tree, statements=True)      # nested ifs merged; the loop-guard form is left as written (rules read path conditions)
@@ -322,7 +384,7 @@ class Program:
                     src = self.overrides[rel] if rel in self.overrides else open(path, encoding="utf-8").read()
                     with warnings.catch_warnings():
                         warnings.simplefilter('ignore')
-                        tree = _canon_control(_canon_all(_strip_inert(ast.parse(src, filename=path))))
+                        tree = _canon_control(_canon_all(_desugar_dict_builds(_strip_inert(ast.parse(src, filename=path)))))
                 except (SyntaxError, UnicodeDecodeError, OSError) as e:
                     raise AnalysisError(f"cannot parse {rel}: {e}")
                 h.update(rel.encode())
